@@ -1257,6 +1257,18 @@ class SymView:
         self.dtype = base.dtype
 
 
+class SymSub:
+    """sub-array of a SymArr selected by leading indices (e.g. one row of a 2-D array)"""
+
+    def __init__(self, base, prefix):
+        self.base, self.prefix = base, tuple(prefix)
+        self.dtype = base.dtype
+
+    @property
+    def ndim(self):
+        return self.base.ndim - len(self.prefix)
+
+
 class SingleIt:
     """one arbitrary iteration of a loop"""
 
@@ -1304,6 +1316,13 @@ class RaceInterp(Interp):
                 return Sym(x.shape_terms[0], types.int64)
             if isinstance(x, SymView):
                 return Sym(self.it(x.hi) - self.it(x.lo), types.int64)
+            if isinstance(x, SymSub):
+                return Sym(x.base.shape_terms[len(x.prefix)], types.int64)
+        if getattr(f, "__name__", "") == "get_num_threads":
+            # size of the thread pool: one arbitrary positive value shared by both iterations
+            v = z3.Int("num_threads")
+            self.cons.append(v >= 1)
+            return Sym(v, types.int64)
         if f in (np.empty, np.zeros, np.empty_like, np.zeros_like):
             self.nfresh += 1
             if f in (np.empty_like, np.zeros_like):
@@ -1363,6 +1382,8 @@ class RaceInterp(Interp):
                 hi = Sym(obj.shape_terms[0], types.int64) if idx.stop is None else idx.stop
                 return SymView(obj, lo, hi)
             key = idx if isinstance(idx, tuple) else (idx,)
+            if len(key) < obj.ndim and not any(isinstance(k, slice) for k in key):
+                return SymSub(obj, tuple(self.it(k) for k in key))
             if len(key) != obj.ndim:
                 raise Unsupported("partial index in race mode")
             terms = tuple(self.it(k) for k in key)
@@ -1382,6 +1403,17 @@ class RaceInterp(Interp):
             if isinstance(idx, slice) and idx.start is None and idx.stop is None:
                 return obj          # [::-1] or [:] : same element set
             raise Unsupported("index into view in race mode")
+        if isinstance(obj, SymSub):
+            if isinstance(idx, slice):
+                if idx.start is None and idx.stop is None:
+                    return obj
+                raise Unsupported("slice of a sub-array in race mode")
+            key = idx if isinstance(idx, tuple) else (idx,)
+            terms = obj.prefix + tuple(self.it(k) for k in key)
+            if len(terms) < obj.base.ndim:
+                return SymSub(obj.base, terms)
+            self.access(obj.base, "R", ("idx", terms))
+            return self.fresh(obj.base.dtype, f"ld_{obj.base.name}")
         return super().getitem(obj, idx, sig)
 
     def setitem(self, obj, idx, v, vty):
@@ -1401,6 +1433,19 @@ class RaceInterp(Interp):
             fa = SymArr(obj.arr.name, obj.arr.dtype.typeof(idx), obj.arr.shape_terms, idx)
             self.access(fa, "W", ("idx", obj.terms))
             return
+        if isinstance(obj, SymSub):
+            pre = [(t, t + 1) for t in obj.prefix]
+            if isinstance(idx, slice):
+                d = obj.base.shape_terms[len(obj.prefix)]
+                lo = 0 if idx.start is None else idx.start
+                hi = Sym(d, types.int64) if idx.stop is None else idx.stop
+                self.access(obj.base, "W", ("box", tuple(pre + [(self.it(lo), self.it(hi))])))
+                return
+            key = idx if isinstance(idx, tuple) else (idx,)
+            self.access(obj.base, "W", ("idx", obj.prefix + tuple(self.it(k) for k in key)))
+            return
+        if isinstance(obj, SymView):
+            raise Unsupported("store through a view in race mode")
         return super().setitem(obj, idx, v, vty)
 
     def binop(self, fn, a, b, sig, where=""):
@@ -1412,6 +1457,11 @@ class RaceInterp(Interp):
             x, y = self.term(a, rt), self.term(b, rt)
             self.cons += [y > 0, q * y <= x, x < (q + 1) * y]
             return Sym(q, rt)
+        if fn2 is operator.mod and isinstance(rt, types.Integer) and isinstance(b, Sym):
+            q, r = self.freshi("q"), self.freshi("r")
+            x, y = self.term(a, rt), self.term(b, rt)
+            self.cons += [y > 0, x == q * y + r, r >= 0, r < y]
+            return Sym(r, rt)
         return super().binop(fn, a, b, sig, where)
 
     def truth(self, v):
@@ -1426,6 +1476,15 @@ class SymRec:
         self.arr, self.terms = arr, terms
 
 
+def _box(w):
+    """per-dimension half-open interval of the leading dimensions an access fixes"""
+    if w[0] == "idx":
+        return [(t, t + 1) for t in w[1]]
+    if w[0] == "range":
+        return [(w[1], w[2])]
+    return list(w[1])
+
+
 def conflict_conditions(accA, accB):
     """pairs (write of A, any access of B) on the same array/field with overlapping elements"""
     out = []
@@ -1435,16 +1494,8 @@ def conflict_conditions(accA, accB):
                 continue
             if fa is not None and fb is not None and fa != fb:
                 continue
-            if wa[0] == "idx" and wb[0] == "idx":
-                if len(wa[1]) != len(wb[1]):
-                    continue
-                same = z3.And([x == y for x, y in zip(wa[1], wb[1])])
-            elif wa[0] == "range" and wb[0] == "range":
-                same = z3.And(wa[1] < wb[2], wb[1] < wa[2], wa[1] < wa[2], wb[1] < wb[2])
-            else:
-                (r, i) = (wa, wb) if wa[0] == "range" else (wb, wa)
-                if len(i[1]) != 1:
-                    continue
-                same = z3.And(r[1] <= i[1][0], i[1][0] < r[2])
+            ba, bb = _box(wa), _box(wb)
+            # an access that fixes fewer leading dimensions covers every index of the remaining ones
+            same = z3.And([z3.And(la < hb, lb < ha, la < ha, lb < hb) for (la, ha), (lb, hb) in zip(ba, bb)])
             out.append((na, fa or fb, ka + kb, z3.And(pa != pb, same)))
     return out
